@@ -1,15 +1,25 @@
 """C05 Ragged reads: bounds check before flat-index use, slice-bound
-normalisation completeness, dispatch agreement, index-space consistency."""
+normalisation completeness, dispatch agreement, index-space consistency.
+
+The constructs are located by ROLE (parameters by position, "the value that
+is returned", "the index of a self._data[...] access", "the array subscripted
+inside the loop over the row selection", ...) and compared after expanding
+temporaries, so the rules do not depend on local names, on which
+sub-expressions carry a name, or on the shape of the if/elif trees.  A shape
+that is not recognised is reported as analysis-incomplete; a violation is
+reported only for a recognised construct whose content differs."""
 import ast
+import copy as _copy
 
 from .. import nullness
-from ..cfg import ENTRY, EXIT, Assume
-from ..core import (AnalysisIncomplete, call_name, const_value, kwarg,
-                    names_loaded, params, param_default, target_names, u,
-                    walk_expr, walk_local)
+from ..cfg import EXIT, Assume
+from ..core import (call_name, const_value, dotted, names_loaded, params,
+                    param_default, target_names, u, walk_expr, walk_local)
+from ..normal import IMPURE_NP, PURE_FUNCS, PURE_METHODS
 from ..patterns import (Cmp, assigns_to, calls_in, conjuncts, finfo,
                         returns_of, subscript_stores)
-from ..match import C, CS
+from ..match import C, canon, distance, match
+from ..match import _NEUTRAL, _parse
 
 RA = 'enspara/ra/ra.py'
 CLS = 'RaggedArray'
@@ -21,100 +31,553 @@ EXPLANATION = (
     'error_check is on (default True); every self._data[...] access in '
     '__getitem__/__setitem__ takes its index from _convert_from_2d(..., '
     'lengths=self.lengths, starts=self.starts) with error_check left at its '
-    'default; negative indices are re-tested after the length is added; (D2) '
+    'default and every path through the tuple-index branch goes through such '
+    'an access (or a numpy row access); negative indices are re-tested after '
+    'the length is added; (D2) '
     'every function that turns slice bounds into index ranges treats None and '
     'negative values of BOTH start and stop and treats or rejects negative '
     'steps (one-sided-comparison rule + nullness reachability of the branch) - '
-    'two known findings are reported; (D3) __getitem__ and __setitem__ map '
+    'known findings are reported; (D3) __getitem__ and __setitem__ map '
     'each (type of first index, type of second index) case to the same '
-    'conversion helper with the same arguments; (D4) in _get_iis_from_slices '
-    'row-indexed arrays (stops/lengths) are subscripted with row ids (the '
-    'elements of the row selection), never with positions in the selection; '
-    '(D5) flat->2-D conversion for masks uses the last start <= index. '
+    'conversion helper with the same arguments (decided by abstract '
+    'interpretation of both decision trees over the nine type cases); (D4) in '
+    '_get_iis_from_slices row-indexed arrays (stops/lengths) are subscripted '
+    'with row ids (the elements of the row selection), never with positions in '
+    'the selection; row ids are repeated by the column count of the same '
+    'position; stops are clipped to the row lengths; '
+    '(D5) flat->2-D conversion for masks uses the last start <= index; (D6) '
+    'simple observers; (D7) rectangular fast path of the constructor is '
+    'rows x row-length and guarded by the equal-lengths test, (row, column) '
+    'pairs are enumerated row-major. '
     'Equality with the list-of-rows model for every index expression is not '
     'decided.')
 
 
+# ---------------------------------------------------------------------------
+# generic helpers (candidates for promotion to a shared module)
+
+_PURE_PREFIXES = ('itertools.',)
+
+
+def _pure(e):
+    """sa.normal.is_pure, with the itertools constructors accepted as pure
+    (they build fresh iterators from their arguments)."""
+    for n in ast.walk(e):
+        if isinstance(n, (ast.Yield, ast.YieldFrom, ast.Await, ast.NamedExpr, ast.Lambda)):
+            return False
+        if isinstance(n, ast.Call):
+            cn = call_name(n) or ''
+            if cn.startswith(_PURE_PREFIXES):
+                continue
+            if isinstance(n.func, ast.Name):
+                if n.func.id not in PURE_FUNCS:
+                    return False
+            elif isinstance(n.func, ast.Attribute):
+                if cn.startswith(('np.', 'numpy.', 'math.')):
+                    if cn in IMPURE_NP or '.random.' in cn:
+                        return False
+                elif n.func.attr not in PURE_METHODS:
+                    return False
+            else:
+                return False
+    return True
+
+
+def _temp_value(fi, name_node, strict=True):
+    """FuncInfo.temp_value with (a) itertools.* accepted as pure and (b)
+    `a, b = <pure call>` seen as a = <call>[0], b = <call>[1]."""
+    if not isinstance(name_node, ast.Name) or not isinstance(name_node.ctx, ast.Load):
+        return None
+    try:
+        defs = fi.defs_of_use(name_node)
+    except Exception:
+        return None
+    if len(defs) != 1:
+        return None
+    site = next(iter(defs))
+    if site in ('PARAM', 'UNBOUND') or not isinstance(site, (ast.Assign, ast.AnnAssign)):
+        return None
+    v = fi.def_value(site, name_node.id)
+    if v is None and isinstance(site, ast.Assign) and len(site.targets) == 1 and \
+            isinstance(site.targets[0], (ast.Tuple, ast.List)) and isinstance(site.value, ast.Call):
+        elts = site.targets[0].elts
+        pos = [i for i, e in enumerate(elts) if isinstance(e, ast.Name) and e.id == name_node.id]
+        if len(pos) == 1 and all(isinstance(e, ast.Name) for e in elts):
+            v = ast.copy_location(ast.Subscript(value=site.value, slice=ast.Constant(value=pos[0]), ctx=ast.Load()), site.value)
+    if v is None or isinstance(v, ast.GeneratorExp) or not _pure(v):
+        return None
+    if fi._mutated_in_place(name_node.id):
+        return None
+    use = fi.stmt(name_node)
+    if use is None:
+        return None
+    for m in walk_expr(v):
+        if not (isinstance(m, ast.Name) and isinstance(m.ctx, ast.Load)):
+            continue
+        if fi.rd.defs_at(site, m.id) != fi.rd.defs_at(use, m.id):
+            return None
+        for ms in (fi._mutated_in_place(m.id) if strict else []):
+            if ms is use or ms is site:
+                continue
+            if fi.cfg.reachable(site, ms, avoiding=[use]) and fi.cfg.reachable(ms, use, avoiding=[site]):
+                return None
+    return v
+
+
+def _expand(fi, expr, stop=(), strict=True, depth=8):
+    """FuncInfo.expand over _temp_value (see there)."""
+    def ex(e, d):
+        if isinstance(e, ast.Name):
+            if d > 0 and e.id not in stop and isinstance(e.ctx, ast.Load):
+                v = _temp_value(fi, e, strict)
+                if v is not None:
+                    return ex(v, d - 1)
+            return ast.copy_location(ast.Name(id=e.id, ctx=e.ctx), e)
+        if not isinstance(e, ast.AST):
+            return e
+        if isinstance(e, (ast.expr_context, ast.operator, ast.unaryop, ast.boolop, ast.cmpop)):
+            return e
+        new = type(e)()
+        for f in e._fields:
+            val = getattr(e, f, None)
+            if isinstance(val, list):
+                setattr(new, f, [ex(x, d) for x in val])
+            elif isinstance(val, ast.AST):
+                setattr(new, f, ex(val, d))
+            else:
+                setattr(new, f, val)
+        for a in ('lineno', 'col_offset', 'end_lineno', 'end_col_offset'):
+            if hasattr(e, a):
+                setattr(new, a, getattr(e, a))
+        return new
+    return ex(expr, depth)
+
+
+def _xc(fi, expr, **kw):
+    """Expanded, canonical tree."""
+    return canon(_expand(fi, expr, **kw))
+
+
+def _xu(fi, expr, **kw):
+    return u(_xc(fi, expr, **kw))
+
+
+def _classify(node, patterns, scope):
+    """match.classify(scope=...) over _pure: 'match' / 'near' (a pure function
+    of the names in scope that is none of the accepted forms: a DIFFERENT
+    computation in a located role) / 'far' (cannot see through it)."""
+    n = canon(node)
+    best = None
+    for pat in patterns:
+        p = _parse(pat)
+        b = {}
+        d = distance(p, n, b)
+        if d == 0:
+            return ('match', b)
+        if best is None or d < best[0]:
+            best = (d, pat)
+    if best is None:
+        return ('far', 10 ** 6, None)
+    bound = set()
+    for x in ast.walk(n):
+        if isinstance(x, ast.comprehension):
+            bound.update(t.id for t in ast.walk(x.target) if isinstance(t, ast.Name))
+    allowed = set(scope) | _NEUTRAL | {'itertools'} | bound
+    closed = _pure(n) and all(x.id in allowed for x in ast.walk(n) if isinstance(x, ast.Name))
+    return ('near' if closed else 'far', best[0], best[1])
+
+
+def _path_conditions(mod, stmt, fn):
+    """[(test, polarity, If)] of the if-statements of fn that enclose stmt,
+    outermost first (polarity False: stmt sits in the else branch)."""
+    out = []
+    n = stmt
+    while n is not None and n is not fn:
+        p = mod.parent.get(n)
+        if isinstance(p, ast.If):
+            if any(n is x for x in p.body):
+                out.append((p.test, True, p))
+            elif any(n is x for x in p.orelse):
+                out.append((p.test, False, p))
+        n = p
+    return list(reversed(out))
+
+
+def _atom_expr(a):
+    """A conjunct from patterns.conjuncts as one boolean expression."""
+    if isinstance(a, Cmp):
+        return ast.Compare(left=a.lhs, ops=[a.op()], comparators=[a.rhs])
+    _, e, pol = a
+    return e if pol else ast.UnaryOp(op=ast.Not(), operand=e)
+
+
+def _atoms(conds):
+    out = []
+    for test, pol, node in conds:
+        cs = conjuncts(test, pol)
+        if cs is None:
+            out.append((('expr', test, pol), node))
+        else:
+            out += [(c, node) for c in cs]
+    return out
+
+
+def _bind_call(mod, call):
+    """{parameter name: argument} of a call to a module-level function of the
+    analysed module (positional and keyword arguments alike)."""
+    f = mod.functions.get(call_name(call) or '')
+    if f is None:
+        return None
+    ps = params(f)
+    out = {}
+    for i, a in enumerate(call.args):
+        if isinstance(a, ast.Starred) or i >= len(ps):
+            return None
+        out[ps[i]] = a
+    for k in call.keywords:
+        if k.arg is None:
+            return None
+        out[k.arg] = k.value
+    return out
+
+
+def _uses_beyond_none(e, name):
+    """Does e use `name` other than in `name is None` / `name is not None`?"""
+    skip = set()
+    for c in ast.walk(e):
+        if isinstance(c, ast.Compare) and len(c.ops) == 1 and isinstance(c.ops[0], (ast.Is, ast.IsNot)):
+            for side in (c.left, c.comparators[0]):
+                if isinstance(side, ast.Name) and side.id == name:
+                    skip.add(id(side))
+    return any(isinstance(x, ast.Name) and x.id == name and id(x) not in skip for x in ast.walk(e))
+
+
+def _raises(stmt, exc):
+    return isinstance(stmt, ast.Raise) and stmt.exc is not None and \
+        (dotted(stmt.exc.func if isinstance(stmt.exc, ast.Call) else stmt.exc) or '').split('.')[-1] == exc
+
+
+def _local_names(fn):
+    out = set(params(fn))
+    for n in walk_local(fn):
+        if isinstance(n, ast.Name):
+            out.add(n.id)
+    return out
+
+
+def _increments(fn, name):
+    """(stmt, target, addend) of `T += e` / `T = T + e` with T = name or name[...]."""
+    out = []
+    for s in walk_local(fn):
+        if isinstance(s, ast.AugAssign) and isinstance(s.op, ast.Add):
+            t, add = s.target, s.value
+        elif isinstance(s, ast.Assign) and len(s.targets) == 1 and isinstance(s.value, ast.BinOp) and isinstance(s.value.op, ast.Add):
+            t = s.targets[0]
+            if u(s.value.left) == u(t):
+                add = s.value.right
+            elif u(s.value.right) == u(t):
+                add = s.value.left
+            else:
+                continue
+        else:
+            continue
+        b = t.value if isinstance(t, ast.Subscript) else t
+        if isinstance(b, ast.Name) and b.id == name:
+            out.append((s, t, add))
+    return out
+
+
+# ---------------------------------------------------------------------------
+# D1
+
 def d1_bounds(ck, mod):
     rule = 'C05.D1.row-bounds'
-    fn = mod.func('_convert_from_2d')
+    F = '_convert_from_2d'
+    fn = mod.func(F)
     ck.analysed(mod, fn)
     fi = finfo(mod, fn)
-    d = param_default(fn, 'error_check')
-    ck.check(const_value(d) is True, rule + '.default', mod, fn, '_convert_from_2d', 'error_check=%s' % u(d),
+    ps = params(fn)
+    if len(ps) < 4:
+        ck.missing(rule, '_convert_from_2d(index, lengths, starts, error_check): parameters not recognised (%s)' % ', '.join(ps))
+        return
+    L, S, EC = ps[1], ps[2], ps[3]
+    d = param_default(fn, EC)
+    ck.check(const_value(d) is True, rule + '.default', mod, fn, F, '%s=%s' % (EC, u(d)),
              'bounds checking is on by default', 'error_check must default to True')
-    guards = []
-    for n in walk_local(fn):
-        if isinstance(n, ast.If) and any(isinstance(x, ast.Raise) and 'IndexError' in u(x) for x in n.body):
-            guards.append(n)
-    ok = False
-    g = None
-    for n in guards:
-        t = n.test
-        if isinstance(t, ast.Call) and (call_name(t) == 'np.any' or (isinstance(t.func, ast.Attribute) and t.func.attr == 'any')) and \
-                isinstance((t.args[0] if t.args else t.func.value), ast.Compare):
-            c = t.args[0] if t.args else t.func.value
-            cmpn = Cmp(c.left, type(c.ops[0]), c.comparators[0])
-            less = cmpn.as_less()
-            if less is not None and u(less[0]) == 'lengths[first_dimension]' and u(less[2]) == 'second_dimension' and not less[1]:
-                ok, g = True, n
-    ck.check(ok, rule + '.test', mod, g or fn, '_convert_from_2d', u(g.test) if g else 'lengths[row] <= column',
-             'an index at or beyond the row length raises IndexError',
-             'the row-bounds test must be np.any(lengths[first_dimension] <= second_dimension) -> IndexError: with < the '
-             'index equal to the row length reads the first element of the NEXT row')
-    flat = [s for s in walk_local(fn) if isinstance(s, ast.Assign) and u(s.targets[0]) == 'iis_flat']
-    okf = len(flat) == 1 and u(flat[0].value) == 'starts[first_dimension] + second_dimension'
-    ck.check(okf, rule + '.flat', mod, flat[0] if flat else fn, '_convert_from_2d', u(flat[0]) if flat else 'iis_flat',
-             'flat index = start of the row + column', 'flat index must be starts[row] + column')
-    if g is not None and flat:
-        outer = mod.parent.get(g)
-        oko = isinstance(outer, ast.If) and u(outer.test) in ('lengths is not None and error_check', 'error_check and lengths is not None')
-        ck.check(oko and fi.cfg.reachable(outer, flat[0]) and fn.body.index(outer) < fn.body.index(flat[0]), rule + '.dominates', mod, outer if oko else g,
-                 '_convert_from_2d', u(outer.test) if isinstance(outer, ast.If) else '?',
-                 'the test runs before the flat index is formed whenever lengths are known and checking is on',
-                 'the bounds test must be guarded only by `lengths is not None and error_check` and precede the flat-index computation')
+    scope = _local_names(fn)
+
+    # --- the flat index is what is returned: starts[row] + column
+    R = Cn = None
+    rets = [r for r in returns_of(fn) if r.value is not None]
+    for r in rets:
+        v = _classify(_expand(fi, r.value), ['(%s[_R] + _C,)' % S, '(_C + %s[_R],)' % S, '[%s[_R] + _C]' % S, '[_C + %s[_R]]' % S], scope)
+        ck.decide(v, rule + '.flat', mod, r, F, _xu(fi, r.value), 'flat index = start of the row + column',
+                  'flat index must be starts[row] + column')
+        if v[0] == 'match' and isinstance(v[1]['_R'], ast.Name) and isinstance(v[1]['_C'], ast.Name):
+            R, Cn = v[1]['_R'].id, v[1]['_C'].id
+    ck.floor(rule + '.flat', len(rets), 1, 'return of the flat index')
+    if R is None:
+        if rets:
+            ck.missing(rule + '.test', 'row / column operands of the flat index not recognised')
+        return
+
+    # --- the bounds test: raise IndexError under  any(lengths[row] <= column)
+    forms = ['(%s[%s] <= %s).any()' % (L, R, Cn), 'not (%s < %s[%s]).all()' % (Cn, L, R), '0 < (%s[%s] <= %s).sum()' % (L, R, Cn),
+             '(%s[%s] <= %s).sum() != 0' % (L, R, Cn), '%s.size and (%s[%s] <= %s).any()' % (R, L, R, Cn)]
+    guard = None           # (If node holding the test, outermost If, extra atoms)
+    cand_near = cand_far = None
+    raises = [s for s in walk_local(fn) if _raises(s, 'IndexError')]
+    for r in raises:
+        conds = _path_conditions(mod, r, fn)
+        extra = []
+        hit = None
+        for a, node in _atoms(conds):
+            if isinstance(a, Cmp) and a.op is ast.IsNot and u(a.lhs) == L and const_value(a.rhs, 1) is None:
+                continue
+            if not isinstance(a, Cmp) and a[2] is True and u(a[1]) == EC:
+                continue
+            if not isinstance(a, Cmp) and isinstance(a[1], ast.Constant) and bool(a[1].value) is a[2]:
+                continue           # constant-true conjunct
+            v = _classify(_expand(fi, _atom_expr(a)), forms, scope)
+            if v[0] == 'match' and hit is None:
+                hit = node
+            else:
+                extra.append((a, node, v))
+        if hit is not None:
+            guard = (hit, conds[0][2], extra, r)
+            break
+        for a, node, v in extra:
+            if v[0] == 'near' and cand_near is None:
+                cand_near = (a, node)
+            elif v[0] == 'far' and cand_far is None:
+                cand_far = (a, node)
+    bad_test = ('the row-bounds test must be np.any(lengths[row] <= column) -> IndexError: with < the '
+                'index equal to the row length reads the first element of the NEXT row')
+    if guard is None:
+        if cand_near is not None:
+            ck.bad(rule + '.test', mod, cand_near[1], F, u(_atom_expr(cand_near[0])), bad_test)
+        elif cand_far is not None:
+            ck.missing(rule + '.test', 'condition of the IndexError in _convert_from_2d not recognised: %s' % u(_atom_expr(cand_far[0]))[:120])
+        else:
+            ck.bad(rule + '.test', mod, fn, F, 'lengths[row] <= column', bad_test + ' (no such test guards an IndexError)')
+        return
+    g, outer, extra, r = guard
+    ck.ok(rule + '.test', mod, g, _xu(fi, g.test)[:200], 'an index at or beyond the row length raises IndexError')
+    # the test is evaluated on every path to the flat index, with the same row / column values
+    same = all(fi.rd.defs_at(g, nm) == fi.rd.defs_at(x, nm) and len(fi.rd.defs_at(g, nm)) == 1 for x in rets for nm in (R, Cn))
+    def off(a):
+        # a condition under which checking is off by contract
+        return (isinstance(a, Cmp) and a.op is ast.Is and u(a.lhs) == L and const_value(a.rhs, 1) is None) or \
+            (not isinstance(a, Cmp) and a[2] is False and u(a[1]) == EC)
+
+    def only_unchecked(x):
+        # the return is reachable only when lengths is None or error_check is off
+        for test, pol, _ in _path_conditions(mod, x, fn):
+            cs = conjuncts(test, pol)
+            if cs is not None:
+                if any(off(a) for a in cs):
+                    return True
+                continue
+            ds = conjuncts(test, not pol)       # De Morgan: test|pol is the disjunction of the negated conjuncts
+            offs = [off(d.negated() if isinstance(d, Cmp) else (d[0], d[1], not d[2])) for d in ds or []]
+            if offs and all(offs):
+                return True
+            if any(offs):
+                return 'weak'      # ... or <something else>: the check is skipped in more cases than the contract allows
+        return False
+    reach = [True if fi.cfg.dominates(outer, x) else only_unchecked(x) for x in rets]
+    dom = all(x is True for x in reach)
+    weak = [x for x, k in zip(rets, reach) if k == 'weak']
+    if extra:
+        ck.bad(rule + '.dominates', mod, extra[0][1], F, u(_atom_expr(extra[0][0]))[:200],
+               'the bounds test must be guarded only by `lengths is not None and error_check` and precede the flat-index computation')
+    elif not same:
+        ck.bad(rule + '.dominates', mod, g, F, u(g.test)[:200],
+               'row / column are rebound between the bounds test and the flat-index computation: the test does not protect the access')
+    elif not dom:
+        if len(rets) == 1 or weak:
+            w = mod.parent.get(weak[0]) if weak else outer
+            ck.bad(rule + '.dominates', mod, w, F, u(getattr(w, 'test', outer.test))[:200],
+                   'the bounds test must be guarded only by `lengths is not None and error_check` and precede the flat-index computation')
+        else:
+            ck.missing(rule + '.dominates', 'several returns in _convert_from_2d, the bounds test does not dominate all of them')
+    else:
+        ck.ok(rule + '.dominates', mod, outer, u(outer.test)[:200],
+              'the test runs before the flat index is formed whenever lengths are known and checking is on')
+    # negative indices were resolved first: row and column of the test ARE the results of _handle_negative_indices
     neg = [c for c in calls_in(fn) if call_name(c) == '_handle_negative_indices']
-    okn = len(neg) == 1 and g is not None and fi.cfg.dominates(fi.stmt(neg[0]), g if not isinstance(mod.parent.get(g), ast.If) else mod.parent.get(g))
-    ck.check(okn, rule + '.negatives-first', mod, neg[0] if neg else fn, '_convert_from_2d', u(neg[0]) if neg else '?',
+    okn = False
+    dr, dc = fi.rd.defs_at(g, R), fi.rd.defs_at(g, Cn)
+    if len(dr) == 1 and dr == dc:
+        site = next(iter(dr))
+        if isinstance(site, ast.Assign) and isinstance(site.value, ast.Call) and call_name(site.value) == '_handle_negative_indices' and \
+                isinstance(site.targets[0], (ast.Tuple, ast.List)) and [u(e) for e in site.targets[0].elts] == [R, Cn]:
+            okn = True
+    if not okn:
+        okn = len(neg) == 1 and fi.cfg.dominates(fi.stmt(neg[0]), outer)
+    ck.check(okn, rule + '.negatives-first', mod, neg[0] if neg else fn, F, u(neg[0])[:200] if neg else '?',
              'negative indices are normalised before the bounds test', 'negative indices must be resolved before the row-bounds test')
-    # call sites in the class
-    n = 0
+
+
+def d1_call_sites(ck, mod):
+    """Every self._data[...] access of the reader and the writer goes through
+    the checked conversion; every tuple-index path goes through such an access."""
+    rule = 'C05.D1.row-bounds.call-sites'
+    conv = mod.func('_convert_from_2d')
+    cps = params(conv)
+    counts = {}
     for q in (CLS + '.__getitem__', CLS + '.__setitem__'):
         f = mod.func(q)
         ck.analysed(mod, f)
-        fi2 = finfo(mod, f)
+        fi = finfo(mod, f)
+        ps = params(f)
+        selfn, idxn = ps[0], ps[1]
+        DATA, ARR = '%s._data' % selfn, '%s._array' % selfn
+        access_stmts = []
+        n = 0
         for sub in walk_local(f):
-            if isinstance(sub, ast.Subscript) and u(sub.value) == 'self._data':
-                n += 1
-                idx = sub.slice
-                v = fi2.resolve(idx) if isinstance(idx, ast.Name) else idx
-                ok = isinstance(v, ast.Call) and call_name(v) == '_convert_from_2d'
-                why = 'flat data must be addressed through _convert_from_2d'
-                if ok:
-                    kws = {k.arg: u(k.value) for k in v.keywords}
-                    ec = kwarg(v, 'error_check')
-                    ok = kws.get('lengths') == 'self.lengths' and kws.get('starts') == 'self.starts' and \
-                        (ec is None or const_value(ec) is True) and len(v.args) == 1
-                    why = ('_convert_from_2d must receive lengths=self.lengths, starts=self.starts and keep error_check at '
-                           'its default: without the lengths / with error_check=False an index past the end of a row '
-                           'silently returns the neighbouring row\'s data')
-                ck.check(ok, rule + '.call-sites', mod, sub, q, '%s with index %s' % (u(sub)[:60], u(v)[:120]),
-                         'row-bounds-checked flat access', why)
-    ck.floor(rule + '.call-sites', n, 4, 'self._data[...] accesses')
-    # _handle_negative_indices re-tests after adding the length
-    fh = mod.func('_handle_negative_indices')
+            if not isinstance(sub, ast.Subscript):
+                continue
+            base = _xu(fi, sub.value)
+            if isinstance(sub.value, ast.Name) and base == sub.value.id:
+                base = u(canon(fi.resolve(sub.value)))      # alias of the same object (mutation does not matter)
+            if base == ARR or base.startswith(ARR + '['):
+                access_stmts.append(fi.stmt(sub))
+            if base != DATA:
+                continue
+            n += 1
+            access_stmts.append(fi.stmt(sub))
+            idx = sub.slice
+            v = fi.resolve(idx) if isinstance(idx, ast.Name) else idx
+            con = '%s with index %s' % (u(sub)[:60], u(v)[:120])
+            if isinstance(v, ast.Name) and fi.defs_of_use(v) != {'PARAM'}:
+                ck.missing(rule, 'index of %s in %s has several definitions (%s): cannot be traced to _convert_from_2d' % (u(sub)[:60], q, v.id))
+                continue
+            if not (isinstance(v, ast.Call) and call_name(v) == '_convert_from_2d'):
+                ck.bad(rule, mod, sub, q, con, 'flat data must be addressed through _convert_from_2d')
+                continue
+            b = _bind_call(mod, v)
+            if b is None:
+                ck.missing(rule, 'arguments of %s in %s not recognised' % (u(v)[:80], q))
+                continue
+            ec = b.get(cps[3])
+            ok = cps[0] in b and cps[1] in b and cps[2] in b and _xu(fi, b[cps[1]]) == '%s.lengths' % selfn and \
+                _xu(fi, b[cps[2]]) == '%s.starts' % selfn and (ec is None or const_value(ec) is True)
+            ck.check(ok, rule, mod, sub, q, con, 'row-bounds-checked flat access',
+                     '_convert_from_2d must receive lengths=self.lengths, starts=self.starts and keep error_check at '
+                     'its default: without the lengths / with error_check=False an index past the end of a row '
+                     'silently returns the neighbouring row\'s data')
+        counts[q] = n
+        # any other element access to the flat data in these functions?
+        for a in walk_local(f):
+            if isinstance(a, ast.Attribute) and u(a) == DATA and isinstance(a.ctx, ast.Load):
+                p = mod.parent.get(a)
+                if isinstance(p, ast.Subscript) and p.value is a:
+                    continue
+                if isinstance(p, ast.Call) and (a in p.args):
+                    continue           # handed to a helper (partition_list, ...): not an element access of this function
+                if isinstance(p, ast.keyword):
+                    continue
+                if isinstance(p, ast.Assign) and p.value is a and all(isinstance(t, ast.Name) for t in p.targets):
+                    continue           # alias; its subscripts were seen through expansion above
+                ck.missing(rule, 'use of the flat data not recognised in %s: %s' % (q, u(p)[:100]))
+        # every path through the tuple-index branch reaches a recognised access
+        start = None
+        for s in walk_local(f):
+            if isinstance(s, ast.Assign) and isinstance(s.targets[0], (ast.Tuple, ast.List)) and len(s.targets[0].elts) == 2 and u(s.value) == idxn:
+                start = s
+                break
+        if start is None:
+            for s in walk_local(f):
+                if isinstance(s, ast.If) and match('isinstance(%s, tuple)' % idxn, s.test) is not None:
+                    start = s.body[0]
+                    break
+        if start is None:
+            ck.missing(rule + '.coverage', 'tuple-index branch of %s (unpacking of the index pair) not found' % q)
+        else:
+            acc = [s for s in access_stmts if s is not None]
+            if start in acc or not fi.cfg.reachable(start, EXIT, avoiding=acc):
+                ck.ok(rule + '.coverage', mod, start, '%s: %s' % (q, u(start)[:80]),
+                      'every path through the tuple-index branch goes through a checked flat access or a numpy row access')
+            else:
+                ck.missing(rule + '.coverage', 'a path through the tuple-index branch of %s reaches the exit without a recognised '
+                           'access to self._data[...] / self._array[...]' % q)
+    ck.floor(rule, sum(counts.values()), 2, 'self._data[...] accesses')
+    for q, n in counts.items():
+        if n == 0:
+            ck.missing(rule, 'no self._data[...] access found in %s' % q)
+
+
+def d1_negatives(ck, mod):
+    """_handle_negative_indices: offsets by the right length, re-test after the offset."""
+    rule = 'C05.D1.row-bounds.negative-recheck'
+    F = '_handle_negative_indices'
+    fh = mod.func(F)
     ck.analysed(mod, fh)
-    for dim in ('first_dimension', 'second_dimension'):
-        rs = [x for x in walk_local(fh) if isinstance(x, ast.If) and u(x.test) in CS('(%s < 0).sum() > 0' % dim, 'np.any(%s < 0)' % dim)
-              and any(isinstance(y, ast.Raise) and 'IndexError' in u(y) for y in x.body)]
-        ck.check(len(rs) == 1, rule + '.negative-recheck', mod, rs[0] if rs else fh, '_handle_negative_indices', u(rs[0].test) if rs else dim,
+    fi = finfo(mod, fh)
+    ps = params(fh)
+    if len(ps) < 4:
+        ck.missing(rule, '_handle_negative_indices(rows, columns, lengths, starts): parameters not recognised')
+        return
+    R, Cn, L, S = ps[:4]
+    scope = _local_names(fh)
+    guards = [x for x in walk_local(fh) if isinstance(x, ast.If) and any(_raises(y, 'IndexError') for y in x.body)]
+    for dim in (R, Cn):
+        forms = ['0 < (%s < 0).sum()' % dim, '(%s < 0).any()' % dim, '%s.min() < 0' % dim, '(%s < 0).sum() != 0' % dim, '1 <= (%s < 0).sum()' % dim]
+        incs = _increments(fh, dim)
+        hit = near = None
+        for gd in guards:
+            v = _classify(_expand(fi, gd.test), forms, scope)
+            if v[0] == 'match':
+                hit = gd
+                break
+            if v[0] == 'near' and dim in names_loaded(gd.test) and near is None:
+                near = gd
+        why = 'after adding the length, a still-negative %s must raise IndexError (otherwise it wraps into the previous row)' % dim
+        if hit is None:
+            ck.bad(rule, mod, near or fh, F, u(near.test) if near is not None else dim, why)
+            continue
+        late = [s for s, _, _ in incs if not fi.cfg.reachable(s, hit)]
+        ck.check(not late and bool(incs), rule, mod, hit, F, u(hit.test),
                  'an index still negative after adding the length raises IndexError',
-                 'after adding the length, a still-negative %s must raise IndexError (otherwise it wraps into the previous row)' % dim)
-    adds = [s for s in walk_local(fh) if isinstance(s, ast.AugAssign) and isinstance(s.op, ast.Add)]
-    sec = [s for s in adds if u(s.target).startswith('second_dimension')]
-    ok = bool(sec) and all('lengths[' in u(s.value) for s in sec)
-    ck.check(ok, rule + '.negative-recheck', mod, sec[0] if sec else fh, '_handle_negative_indices', '; '.join(u(s) for s in sec)[:200],
-             'negative column indices are offset by the length of THEIR row', 'negative columns must be offset by lengths[row]')
+                 why + ' (the re-test must come after the offset)')
+    # what is added
+    for s, t, add in _increments(fh, Cn):
+        if isinstance(t, ast.Subscript):
+            I = _xu(fi, t.slice, strict=False)
+            forms = ['%s[%s[_I]]' % (L, R), '%s[%s]' % (L, R)]
+        else:
+            I = None
+            forms = ['%s[%s]' % (L, R)]
+        v = _classify(_expand(fi, add, strict=False), forms, scope)
+        if v[0] == 'match' and '_I' in v[1] and u(canon(v[1]['_I'])) != I:
+            v = ('near', 1, forms[0])
+        ck.decide(v, rule, mod, s, F, u(s)[:200], 'negative column indices are offset by the length of THEIR row',
+                  'negative columns must be offset by lengths[row] of the same positions')
+    incs = _increments(fh, R)
+    for s, t, add in incs:
+        v = _classify(_expand(fi, add, strict=False), ['len(%s)' % S, '%s.shape[0]' % S, '%s.size' % S, 'len(%s)' % L, '%s.shape[0]' % L, '%s.size' % L], scope)
+        ck.decide(v, rule + '.rows', mod, s, F, u(s)[:200], 'negative row indices are offset by the number of rows',
+                  'negative rows must be offset by the number of rows (len(starts))')
+    ck.floor(rule, len(_increments(fh, Cn)), 1, 'offsets of negative column indices')
+
+
+# ---------------------------------------------------------------------------
+# D2
+
+def _is_none_test(c, var):
+    return isinstance(c, Cmp) and c.op is ast.Is and \
+        ((u(c.lhs) == var and const_value(c.rhs, 1) is None) or (u(c.rhs) == var and const_value(c.lhs, 1) is None))
+
+
+def _is_negative_test(c, var):
+    if not isinstance(c, Cmp):
+        return False
+    less = c.as_less()
+    if less is None or u(less[0]) != var:
+        return False
+    k = const_value(less[2])
+    return (k == 0 and less[1]) or (k == -1 and not less[1])
 
 
 def d2_slices(ck, mod):
@@ -136,13 +599,12 @@ def d2_slices(ck, mod):
                 continue
             none_case = neg_case = False
             for n in walk_local(fn):
-                if isinstance(n, ast.If):
-                    for c in conjuncts(n.test, True) or []:
-                        if isinstance(c, Cmp) and u(c.lhs) == var:
-                            if c.op is ast.Is and const_value(c.rhs, 1) is None:
+                if isinstance(n, (ast.If, ast.IfExp)):
+                    for pol in (True, False):
+                        for c in conjuncts(n.test, pol) or []:
+                            if _is_none_test(c, var):
                                 none_case = True
-                            less = c.as_less()
-                            if less is not None and u(less[0]) == var and const_value(less[2]) == 0:
+                            if pol and _is_negative_test(c, var):
                                 neg_case = True
             ck.check(none_case, rule + '.none', mod, fn, q, '%s is None' % var, 'omitted %s handled' % part,
                      '%s does not treat an omitted %s' % (q, part))
@@ -162,9 +624,7 @@ def d2_slices(ck, mod):
         for n in fi.cfg.nodes:
             if isinstance(n, Assume) and n.polarity is True:
                 cs = conjuncts(n.test, True) or []
-                mentions = any(isinstance(c, Cmp) and (c.as_less() or (None,))[0] is not None and u(c.as_less()[0]) == var
-                               and const_value(c.as_less()[2]) == 0 for c in cs)
-                if mentions:
+                if any(_is_negative_test(c, var) for c in cs):
                     if OUT.get(n) is None:
                         dead = n
                     else:
@@ -181,190 +641,831 @@ def d2_slices(ck, mod):
                      '%s neither handles nor rejects a negative step: it is passed to arange/range with ascending bounds' % q)
 
 
-def _leaf_calls(mod, fi, stmts, conds, out):
-    """Walk an if/elif tree collecting (conditions, helper call) leaves."""
-    for s in stmts:
-        if isinstance(s, ast.If):
-            _leaf_calls(mod, fi, s.body, conds + [u(s.test)], out)
-            _leaf_calls(mod, fi, s.orelse, conds + ['not(' + u(s.test) + ')'], out)
-        elif isinstance(s, ast.Assign) and isinstance(s.value, ast.Call) and \
-                call_name(s.value) in ('_get_iis_from_slices', '_get_iis_from_list', '_slice_to_list'):
-            args = []
-            for a in s.value.args:
-                v = fi.resolve(a) if isinstance(a, ast.Name) else a
-                # only see through pure renames (Name = Name)
-                args.append(u(v) if isinstance(v, ast.Name) else u(a))
-            kws = sorted('%s=%s' % (k.arg, u(k.value)) for k in s.value.keywords)
-            out.append((tuple(conds), call_name(s.value), tuple(args), tuple(kws)))
+# ---------------------------------------------------------------------------
+# D3: abstract interpretation of the index dispatch
+
+class _Sub(ast.NodeTransformer):
+    """Substitute the symbolic environment into an expression; calls to
+    functions of the module are put in keyword form (sorted), INDEX[0] /
+    INDEX[1] are the two components of a tuple index."""
+
+    def __init__(self, env, mod):
+        self.env, self.mod = env, mod
+
+    def visit_Name(self, n):
+        if isinstance(n.ctx, ast.Load) and n.id in self.env:
+            return _copy.deepcopy(self.env[n.id])
+        return n
+
+    def visit_Subscript(self, n):
+        self.generic_visit(n)
+        if isinstance(n.value, ast.Name) and n.value.id == 'INDEX' and const_value(n.slice) in (0, 1) and \
+                not isinstance(const_value(n.slice), bool):
+            return ast.Name(id='FIRST' if const_value(n.slice) == 0 else 'SECOND', ctx=ast.Load())
+        return n
+
+    def visit_Call(self, n):
+        self.generic_visit(n)
+        f = self.mod.functions.get(call_name(n) or '')
+        if f is not None and not any(isinstance(a, ast.Starred) for a in n.args) and all(k.arg for k in n.keywords):
+            ps = params(f)
+            if len(n.args) <= len(ps):
+                kws = [ast.keyword(arg=ps[i], value=a) for i, a in enumerate(n.args)] + list(n.keywords)
+                n.args = []
+                n.keywords = sorted(kws, key=lambda k: k.arg)
+        return n
+
+
+def _sub(expr, env, mod):
+    e = _Sub(env, mod).visit(_copy.deepcopy(expr))
+    ast.fix_missing_locations(e)
+    return canon(e)
+
+
+_TYPE_TABLE = {
+    # abstract value -> {type name: is instance}; unknown names -> None
+    'int': {'Integral': True},
+    'slice': {'slice': True},
+    'list': {'list': True},
+    'ndarray': {'ndarray': True},
+    'tuple': {'tuple': True},
+    'ragged': {'RaggedArray': True},
+    'other': {'list': None, 'ndarray': None},
+}
+_KNOWN_TYPES = {'Integral', 'slice', 'list', 'ndarray', 'tuple', 'RaggedArray'}
+_UNSURE_FOR_INT = {'int', 'integer', 'Number', 'Real', 'Rational', 'Complex', 'int64', 'int32'}
+
+
+def _isa(kind, tname):
+    if kind is None:
+        return None
+    t = _TYPE_TABLE.get(kind, {})
+    if tname in t:
+        return t[tname]
+    if kind == 'int' and tname in _UNSURE_FOR_INT:
+        return None
+    if tname in _KNOWN_TYPES or tname in _UNSURE_FOR_INT:
+        return False
+    return None
+
+
+def _kind_of(e, kind):
+    if isinstance(e, ast.Name):
+        if e.id == 'INDEX':
+            return kind[0]
+        if e.id == 'FIRST' and kind[0] == 'tuple':
+            return kind[1]
+        if e.id == 'SECOND' and kind[0] == 'tuple':
+            return kind[2]
+    return None
+
+
+def _truth(t, kind, selfn):
+    """Three-valued value of a (substituted) test under the abstract index."""
+    if isinstance(t, ast.UnaryOp) and isinstance(t.op, ast.Not):
+        v = _truth(t.operand, kind, selfn)
+        return None if v is None else not v
+    if isinstance(t, ast.BoolOp):
+        vs = [_truth(x, kind, selfn) for x in t.values]
+        if isinstance(t.op, ast.And):
+            return False if False in vs else (None if None in vs else True)
+        return True if True in vs else (None if None in vs else False)
+    if isinstance(t, ast.Call) and call_name(t) == 'isinstance' and len(t.args) == 2:
+        k = _kind_of(t.args[0], kind)
+        if k is None:
+            return None
+        ts = t.args[1].elts if isinstance(t.args[1], ast.Tuple) else [t.args[1]]
+        vs = [_isa(k, (dotted(x) or '?').split('.')[-1]) for x in ts]
+        return True if True in vs else (None if None in vs else False)
+    if isinstance(t, ast.Compare) and len(t.ops) == 1 and isinstance(t.ops[0], (ast.Is, ast.IsNot, ast.Eq, ast.NotEq)):
+        a, b = t.left, t.comparators[0]
+        ty = 'type(%s)' % selfn
+        if u(b) != ty:
+            a, b = b, a
+        if u(b) == ty and isinstance(a, ast.Call) and call_name(a) == 'type' and len(a.args) == 1:
+            k = _kind_of(a.args[0], kind)
+            if k is None:
+                return None
+            v = (k == 'ragged')
+            return v if isinstance(t.ops[0], (ast.Is, ast.Eq)) else not v
+    return None
+
+
+class _Dispatch:
+    """Outcome of fn for one abstract index: the first statement on the path
+    that reads/stores through self._data[...] / self._array[...] or that
+    re-dispatches to the same method."""
+
+    def __init__(self, mod, fn):
+        self.mod, self.fn = mod, fn
+        ps = params(fn)
+        self.selfn, self.idxn = ps[0], ps[1]
+        self.budget = 400
+
+    def table(self, kind):
+        self.budget = 400
+        outs = self.run(list(self.fn.body), {self.idxn: ast.Name(id='INDEX', ctx=ast.Load())}, kind)
+        uniq = []
+        for o in outs:
+            if o[:2] not in [x[:2] for x in uniq]:
+                uniq.append(o)
+        return uniq
+
+    def run(self, todo, env, kind):
+        env = dict(env)
+        for i, s in enumerate(todo):
+            self.budget -= 1
+            if self.budget < 0:
+                return [('opaque', 'too many paths', None, s)]
+            rest = todo[i + 1:]
+            if isinstance(s, ast.If):
+                t = _truth(_sub(s.test, env, self.mod), kind, self.selfn)
+                outs = []
+                if t is not False:
+                    outs += self.run(list(s.body) + rest, env, kind)
+                if t is not True:
+                    outs += self.run(list(s.orelse) + rest, env, kind)
+                return outs
+            if isinstance(s, (ast.For, ast.While, ast.Try, ast.With, ast.AsyncFor, ast.AsyncWith)) or type(s).__name__ in ('Match', 'TryStar'):
+                return [('opaque', type(s).__name__, None, s)]
+            sink = self.sink(s, env)
+            if sink is not None:
+                return [sink]
+            if isinstance(s, ast.Return):
+                if s.value is not None and self.selfn in names_loaded(_sub(s.value, env, self.mod)):
+                    return [('opaque', 'return value not recognised: %s' % u(s.value)[:60], None, s)]
+                return [('none', 'returns without touching the data', None, s)]
+            if isinstance(s, ast.Raise):
+                return [('raise', u(s.exc)[:60] if s.exc is not None else 'raise', None, s)]
+            if isinstance(s, ast.Assign):
+                val = _sub(s.value, env, self.mod)
+                for t in s.targets:
+                    self.bind(t, val, env, kind)
+            elif isinstance(s, (ast.AugAssign, ast.AnnAssign)):
+                for nm in target_names(s.target):
+                    env.pop(nm, None)
+        return [('none', 'falls off the end', None, None)]
+
+    def bind(self, t, val, env, kind):
+        if isinstance(t, ast.Name):
+            env[t.id] = val
+        elif isinstance(t, (ast.Tuple, ast.List)):
+            if isinstance(val, (ast.Tuple, ast.List)) and len(val.elts) == len(t.elts):
+                for te, ve in zip(t.elts, val.elts):
+                    self.bind(te, ve, env, kind)
+            else:
+                for i, te in enumerate(t.elts):
+                    if isinstance(te, ast.Name):
+                        env[te.id] = _sub(ast.Subscript(value=val, slice=ast.Constant(value=i), ctx=ast.Load()), {}, self.mod)
+
+    def sink(self, s, env):
+        exprs = []
+        if isinstance(s, ast.Return) and s.value is not None:
+            exprs = [s.value]
+        elif isinstance(s, ast.Assign):
+            exprs = [t for t in s.targets if isinstance(t, ast.Subscript)]
+        elif isinstance(s, ast.AugAssign) and isinstance(s.target, ast.Subscript):
+            exprs = [s.target]
+        elif isinstance(s, ast.Expr):
+            exprs = [s.value]
+        for e in exprs:
+            e2 = _sub(e, env, self.mod)
+            for c in ast.walk(e2):
+                if isinstance(c, ast.Call) and isinstance(c.func, ast.Attribute) and u(c.func.value) == self.selfn and c.func.attr == self.fn.name:
+                    a0 = c.args[0] if c.args else (c.keywords[0].value if c.keywords else None)
+                    return ('redispatch', u(a0), u(e2), s)
+            if isinstance(s, ast.Expr):
+                continue
+            acc = self.access(e2)
+            if acc is not None:
+                return ('access', u(acc), u(e2), s)
+        return None
+
+    def access(self, e):
+        """The outermost subscript chain rooted in self._data / self._array."""
+        roots = ('%s._data' % self.selfn, '%s._array' % self.selfn)
+        inner = set()
+        found = []
+        for n in ast.walk(e):
+            if isinstance(n, ast.Subscript):
+                b = n
+                while isinstance(b, ast.Subscript):
+                    b = b.value
+                if isinstance(b, ast.Attribute) and u(b) in roots:
+                    found.append(n)
+                    if isinstance(n.value, ast.Subscript):
+                        inner.add(id(n.value))
+        for n in found:
+            if id(n) not in inner:
+                return n
+        return None
+
+
+_ELEM = ('slice', 'int', 'other')
 
 
 def d3_dispatch(ck, mod):
     rule = 'C05.D3.dispatch-agreement'
-    trees = {}
-    for q in (CLS + '.__getitem__', CLS + '.__setitem__'):
-        fn = mod.func(q)
-        fi = finfo(mod, fn)
-        tb = None
-        for n in walk_local(fn):
-            if isinstance(n, ast.If) and u(n.test) == 'isinstance(iis, tuple)':
-                tb = n
-        if tb is None:
-            ck.missing(rule, 'tuple-index branch in %s' % q)
-            return
-        out = []
-        _leaf_calls(mod, fi, tb.body, [], out)
-        trees[q] = out
-    g, s = trees[CLS + '.__getitem__'], trees[CLS + '.__setitem__']
-    # compare per condition path the helper and its arguments
-    gd = {(c, h): (a, k) for c, h, a, k in g}
-    sd = {(c, h): (a, k) for c, h, a, k in s}
-    keys = sorted(set(gd) | set(sd), key=str)
+    G, W = CLS + '.__getitem__', CLS + '.__setitem__'
+    fg, fw = mod.func(G), mod.func(W)
+    dg, dw = _Dispatch(mod, fg), _Dispatch(mod, fw)
+
+    def show(o):
+        return '%s %s' % (o[0], o[1])
+
+    def one(outs):
+        return outs[0] if len(outs) == 1 and outs[0][0] != 'opaque' else None
+
     n = 0
-    fn = mod.func(CLS + '.__getitem__')
-    for key in keys:
-        n += 1
-        a, b = gd.get(key), sd.get(key)
-        ck.check(a is not None and a == b, rule, mod, fn, '__getitem__ <-> __setitem__',
-                 'case %s -> %s%s' % (' & '.join(key[0]) or '<tuple>', key[1], a if a is not None else b),
-                 'reader and writer convert this index form identically',
-                 'for the index form [%s] the reader calls %s%s but the writer calls %s%s: a value written through '
-                 'one index form is read back from a different cell' % (' & '.join(key[0]), key[1], a, key[1], b))
+    for a in _ELEM:
+        for b in _ELEM:
+            kind = ('tuple', a, b)
+            og, ow = dg.table(kind), dw.table(kind)
+            g, w = one(og), one(ow)
+            case = 'index (%s, %s)' % (a, b)
+            if g is None or w is None:
+                ck.missing(rule, 'outcome of %s not determined: reader %s / writer %s' % (
+                    case, '; '.join(show(o) for o in og)[:160], '; '.join(show(o) for o in ow)[:160]))
+                continue
+            if g[0] not in ('access', 'redispatch') and g[:2] == w[:2]:
+                ck.missing(rule, 'neither reader nor writer reaches a data access for %s (%s)' % (case, show(g)[:100]))
+                continue
+            n += 1
+            ck.check(g[:2] == w[:2], rule, mod, g[3] if g[3] is not None else fg, '__getitem__ <-> __setitem__',
+                     'case %s -> %s' % (case, show(g)[:180]),
+                     'reader and writer convert this index form identically',
+                     'for the %s the reader goes through %s but the writer through %s: a value written through '
+                     'one index form is read back from a different cell' % (case, show(g), show(w)))
     ck.floor(rule, n, 5, 'index-form cases')
-    # top-level type dispatch agreement
-    tests = {}
-    for q in (CLS + '.__getitem__', CLS + '.__setitem__'):
-        fnq = mod.func(q)
-        tests[q] = [u(nn.test) for nn in walk_local(fnq) if isinstance(nn, ast.If) and 'iis' in u(nn.test) and
-                    ('isinstance(iis' in u(nn.test) or 'type(iis)' in u(nn.test))]
-    ck.check('isinstance(iis, tuple)' in tests[CLS + '.__getitem__'] and 'type(iis) is type(self)' in tests[CLS + '.__getitem__'] and
-             'isinstance(iis, tuple)' in tests[CLS + '.__setitem__'] and 'type(iis) is type(self)' in tests[CLS + '.__setitem__'],
-             rule + '.forms', mod, fn, '__getitem__ <-> __setitem__', str(tests), 'both accept tuple and ragged-mask indices', 'reader and writer accept different index kinds')
-    # ragged mask: where() then recurse
-    for q, rec in ((CLS + '.__getitem__', 'self.__getitem__(iis)'), (CLS + '.__setitem__', 'self.__setitem__(iis, value)')):
-        fnq = mod.func(q)
-        ok = any(isinstance(nn, ast.If) and u(nn.test) == 'type(iis) is type(self)' and
-                 any(u(x) == 'iis = where(iis)' for x in nn.body) and rec in u(nn.body[-1]) for nn in walk_local(fnq))
-        ck.check(ok, rule + '.mask', mod, fnq, q, 'mask -> where(mask) -> %s' % rec, 'boolean ragged mask converted to paired indices and re-dispatched',
-                 'a ragged boolean mask must be converted with where() and re-dispatched')
+    # ragged boolean mask: where() then re-dispatch; both accept tuple and mask indices
+    want = u(_sub(ast.parse('where(INDEX)').body[0].value, {}, mod))
+    masks = {}
+    for q, f, dd, rec in ((G, fg, dg, 'self.__getitem__(iis)'), (W, fw, dw, 'self.__setitem__(iis, value)')):
+        outs = dd.table(('ragged',))
+        o = one(outs)
+        masks[q] = o
+        if o is None:
+            ck.missing(rule + '.mask', 'outcome of a ragged-mask index in %s not determined: %s' % (q, '; '.join(show(x) for x in outs)[:200]))
+            continue
+        ck.check(o[0] == 'redispatch' and o[1] == want, rule + '.mask', mod, o[3] if o[3] is not None else f, q,
+                 'mask -> where(mask) -> %s' % rec, 'boolean ragged mask converted to paired indices and re-dispatched',
+                 'a ragged boolean mask must be converted with where() and re-dispatched (found: %s)' % show(o))
+    tg = one(dg.table(('tuple', 'other', 'other')))
+    tw = one(dw.table(('tuple', 'other', 'other')))
+    if None not in (tg, tw, masks.get(G), masks.get(W)):
+        ck.check(all(o[0] not in ('none', 'raise') for o in (tg, tw, masks[G], masks[W])), rule + '.forms', mod, fg, '__getitem__ <-> __setitem__',
+                 'tuple: %s / %s; mask: %s / %s' % (tg[0], tw[0], masks[G][0], masks[W][0]),
+                 'both accept tuple and ragged-mask indices', 'reader and writer accept different index kinds')
+    # D6: plain row access of the reader
+    idx = ast.Name(id='INDEX', ctx=ast.Load())
+    for kind, want_whole, what in ((('int',), 'self._array[INDEX]', 'integer index returns the row view'),
+                                   (('slice',), 'RaggedArray(self._array[INDEX])', 'row slice returns the ragged array of the selected rows'),
+                                   (('list',), 'RaggedArray(self._array[INDEX])', 'row list returns the ragged array of the selected rows')):
+        outs = dg.table(kind)
+        o = one(outs)
+        if o is None:
+            ck.missing('C05.D6.observers', 'outcome of a[%s] not determined: %s' % (kind[0], '; '.join(show(x) for x in outs)[:200]))
+            continue
+        whole = (o[2] or '').replace(dg.selfn + '.', 'self.')
+        ck.check(o[0] == 'access' and whole in (want_whole, want_whole.replace('RaggedArray(', 'RaggedArray(array=')), 'C05.D6.observers', mod,
+                 o[3] if o[3] is not None else fg, G, 'a[%s] -> %s' % (kind[0], o[2]), what,
+                 'a[%s] must return %s' % (kind[0], want_whole.replace('INDEX', 'i')))
+
+
+# ---------------------------------------------------------------------------
+# D4
+
+_ALLOC = {'np.zeros', 'np.ones', 'np.full', 'np.empty'}
+_LIKE = {'np.zeros_like', 'np.ones_like', 'np.full_like', 'np.empty_like', 'np.minimum', 'np.maximum', 'np.clip',
+         'np.asarray', 'np.array', 'np.abs', 'np.where'}
+
+
+def _row_indexed(fn, lengths):
+    """Names of arrays with one entry per ROW of the ragged array: `lengths`
+    and whatever is computed elementwise from it."""
+    S = {lengths}
+
+    def elementwise(e):
+        if isinstance(e, ast.Name):
+            return e.id in S
+        if isinstance(e, ast.BinOp):
+            return elementwise(e.left) or elementwise(e.right)
+        if isinstance(e, ast.UnaryOp):
+            return elementwise(e.operand)
+        if isinstance(e, ast.IfExp):
+            return elementwise(e.body) and elementwise(e.orelse)
+        if isinstance(e, ast.Call):
+            cn = call_name(e) or ''
+            args = list(e.args) + [k.value for k in e.keywords]
+            if cn in _ALLOC:
+                for a in args:
+                    for x in walk_expr(a):
+                        if isinstance(x, ast.Attribute) and x.attr == 'shape' and isinstance(x.value, ast.Name) and x.value.id in S:
+                            return True
+                        if isinstance(x, ast.Call) and call_name(x) == 'len' and x.args and isinstance(x.args[0], ast.Name) and x.args[0].id in S:
+                            return True
+                return False
+            if cn in _LIKE:
+                return any(elementwise(a) for a in e.args)
+            if isinstance(e.func, ast.Attribute) and e.func.attr in ('copy', 'astype', 'clip'):
+                return elementwise(e.func.value)
+        return False
+    changed = True
+    while changed:
+        changed = False
+        for s in walk_local(fn):
+            if isinstance(s, ast.Assign) and len(s.targets) == 1 and isinstance(s.targets[0], ast.Name) and \
+                    s.targets[0].id not in S and elementwise(s.value):
+                S.add(s.targets[0].id)
+                changed = True
+    return S
+
+
+def _seq_of_iter(fi, it):
+    """('seq', Y) for `Y`; ('range', Y) for range(len(Y)) / range(Y.shape[0]) / range(Y.size);
+    ('enumerate', Y); ('zip', [Y...]); else None.  Y as canonical expanded text."""
+    e = _xc(fi, it)
+    if isinstance(e, ast.Call):
+        cn = call_name(e)
+        if cn == 'range' and len(e.args) == 1 and not e.keywords:
+            for pat in ('len(_Y)', '_Y.shape[0]', '_Y.size'):
+                b = match(pat, e.args[0])
+                if b is not None:
+                    return ('range', u(b['_Y']))
+            return None
+        if cn == 'enumerate' and len(e.args) == 1 and not e.keywords:
+            return ('enumerate', u(e.args[0]))
+        if cn == 'zip' and e.args and not e.keywords:
+            return ('zip', [u(a) for a in e.args])
+        return None
+    return ('seq', u(e))
+
+
+def _per_selection(fn, fi, rows):
+    """Names of sequences with exactly one entry per SELECTED row, in selection order."""
+    S = {rows}
+    changed = True
+    while changed:
+        changed = False
+        for loop in walk_local(fn):
+            if isinstance(loop, ast.For):
+                k = _seq_of_iter(fi, loop.iter)
+                over = k is not None and ((k[0] in ('seq', 'range', 'enumerate') and k[1] in S) or (k[0] == 'zip' and any(y in S for y in k[1])))
+                if not over or loop.orelse:
+                    continue
+                if any(isinstance(x, (ast.Break, ast.Continue)) for x in walk_local(loop)):
+                    continue
+                for st in loop.body:
+                    if isinstance(st, ast.Expr) and isinstance(st.value, ast.Call) and isinstance(st.value.func, ast.Attribute) and \
+                            st.value.func.attr == 'append' and isinstance(st.value.func.value, ast.Name):
+                        nm = st.value.func.value.id
+                        appends = [c for c in calls_in(fn) if isinstance(c.func, ast.Attribute) and c.func.attr in ('append', 'extend', 'insert', 'pop', 'remove')
+                                   and isinstance(c.func.value, ast.Name) and c.func.value.id == nm]
+                        if nm not in S and len(appends) == 1:
+                            S.add(nm)
+                            changed = True
+            elif isinstance(loop, ast.Assign) and len(loop.targets) == 1 and isinstance(loop.targets[0], ast.Name) and loop.targets[0].id not in S:
+                v = loop.value
+                src = None
+                if isinstance(v, ast.Call) and call_name(v) in ('np.array', 'np.asarray', 'list', 'tuple') and v.args and \
+                        isinstance(v.args[0], ast.ListComp):
+                    v = v.args[0]
+                if isinstance(v, ast.Call) and call_name(v) in ('np.array', 'np.asarray', 'list', 'tuple') and v.args and isinstance(v.args[0], ast.Name):
+                    src = v.args[0].id
+                elif isinstance(v, ast.Call) and isinstance(v.func, ast.Attribute) and v.func.attr == 'copy' and isinstance(v.func.value, ast.Name):
+                    src = v.func.value.id
+                elif isinstance(v, ast.ListComp) and len(v.generators) == 1 and not v.generators[0].ifs:
+                    k = _seq_of_iter(fi, v.generators[0].iter)
+                    if k is not None and k[0] in ('seq', 'range', 'enumerate') and k[1] in S:
+                        src = k[1]
+                if src in S:
+                    S.add(loop.targets[0].id)
+                    changed = True
+    return S
+
+
+def _loop_vars(fi, target, it, rows, persel, gen):
+    """{name: (kind, sequence, generator)}; kind: 'rowid' (an element of the
+    row selection), 'pos' (a position in a per-selection sequence), 'elem'
+    (element of a per-selection sequence other than the selection), 'unknown'."""
+    k = _seq_of_iter(fi, it)
+    names = target_names(target)
+    out = {nm: ('unknown', None, gen) for nm in names}
+    if k is None:
+        return out
+    if k[0] == 'seq' and isinstance(target, ast.Name):
+        if k[1] == rows:
+            out[target.id] = ('rowid', rows, gen)
+        elif k[1] in persel:
+            out[target.id] = ('elem', k[1], gen)
+    elif k[0] == 'range' and isinstance(target, ast.Name) and k[1] in persel:
+        out[target.id] = ('pos', k[1], gen)
+    elif k[0] == 'enumerate' and isinstance(target, (ast.Tuple, ast.List)) and len(target.elts) == 2 and \
+            all(isinstance(e, ast.Name) for e in target.elts) and k[1] in persel:
+        out[target.elts[0].id] = ('pos', k[1], gen)
+        out[target.elts[1].id] = ('rowid' if k[1] == rows else 'elem', k[1], gen)
+    elif k[0] == 'zip' and isinstance(target, (ast.Tuple, ast.List)) and len(target.elts) == len(k[1]) and \
+            all(isinstance(e, ast.Name) for e in target.elts) and all(y in persel for y in k[1]):
+        for e, y in zip(target.elts, k[1]):
+            out[e.id] = ('rowid' if y == rows else 'elem', y, gen)
+    return out
 
 
 def d4_index_space(ck, mod):
     rule = 'C05.D4.index-space'
-    fn = mod.func('_get_iis_from_slices')
+    F = '_get_iis_from_slices'
+    fn = mod.func(F)
+    ck.analysed(mod, fn)
     fi = finfo(mod, fn)
-    rows, sl, lengths = params(fn)[:3]
-    loops = [l for l in walk_local(fn) if isinstance(l, ast.For)]
-    n = 0
-    for loop in loops:
-        for sub in walk_local(loop):
-            if isinstance(sub, ast.Subscript) and u(sub.value) in ('stops', 'starts', lengths) and isinstance(sub.ctx, ast.Load):
-                idx = sub.slice
-                n += 1
-                lv = u(loop.target)
-                ok = False
-                if u(idx) == lv and u(loop.iter) == rows:
-                    ok = True        # iterating row ids directly
-                elif u(idx) == '%s[%s]' % (rows, lv) and isinstance(loop.iter, ast.Call) and call_name(loop.iter) == 'range':
-                    ok = True        # positions, mapped through the selection
-                ck.check(ok, rule, mod, sub, '_get_iis_from_slices', 'for %s in %s: ... %s' % (lv, u(loop.iter), u(sub)),
-                         'row-indexed array subscripted with a ROW ID of the selection',
-                         '`%s` is indexed by row id (it is derived from `%s`), but `%s` iterates over %s: a position in the '
-                         'row selection is used as a row id, so for a[1:, :] / a[[2, 0], :] the stop of the wrong row '
-                         'clips the slice' % (u(sub.value), lengths, lv, u(loop.iter)))
-    ck.floor(rule, n, 1, 'row-indexed subscripts in the expansion loop')
-    # iis_1d repeats the row id of position i, lengths[i] times
-    rep = [c for c in calls_in(fn) if call_name(c) == 'itertools.repeat']
-    ok = len(rep) == 1 and u(rep[0].args[0]) == '%s[i]' % rows and u(rep[0].args[1]) == 'iis_2d_lengths[i]'
-    ck.check(ok, rule + '.repeat', mod, rep[0] if rep else fn, '_get_iis_from_slices', u(rep[0]) if rep else 'repeat',
-             'row id of selection position i repeated once per selected column', 'row ids must be repeated per selected column count of the same position')
-    # clip of stops to lengths
-    cl = [(s, t) for s, t in subscript_stores(fn, 'stops')]
-    ok = len(cl) == 1 and u(cl[0][0].value) == '%s[%s]' % (lengths, u(cl[0][1].slice))
-    w = [s for s in walk_local(fn) if isinstance(s, ast.Assign) and u(s.targets[0]) == u(cl[0][1].slice)] if cl else []
-    ok = ok and len(w) == 1 and u(w[0].value) == C('np.where(stops > %s)' % lengths)
-    ck.check(ok, rule + '.clip', mod, cl[0][0] if cl else fn, '_get_iis_from_slices', u(cl[0][0]) if cl else 'clip', 'stops beyond a row are clipped to that row\'s length',
-             'stops must be clipped per row: stops[stops > lengths] = lengths[...]')
+    ps = params(fn)
+    if len(ps) < 3:
+        ck.missing(rule, '_get_iis_from_slices(rows, column slice, lengths): parameters not recognised')
+        return
+    rows, sl, lengths = ps[:3]
+    rowidx = _row_indexed(fn, lengths)
+    persel = _per_selection(fn, fi, rows)
+    state = {'n': 0, 'rep': 0, 'stops': set(), 'loops': []}
+    # the sequence returned as the new lengths
+    newlen = None
+    for r in returns_of(fn):
+        if isinstance(r.value, ast.Tuple) and len(r.value.elts) == 2:
+            newlen = _xu(fi, r.value.elts[1])
+
+    def rowid_of(e, env):
+        """('rowid', gen) / ('pos', gen) / None for an index expression."""
+        if isinstance(e, ast.Name) and e.id in env:
+            k = env[e.id]
+            if k[0] in ('rowid', 'pos'):
+                return (k[0], k[2], k[1])
+            return ('unknown', k[2], k[1])
+        if isinstance(e, ast.Subscript) and u(e.value) == rows and isinstance(e.slice, ast.Name) and e.slice.id in env:
+            k = env[e.slice.id]
+            if k[0] == 'pos':
+                return ('rowid', k[2], k[1])
+            return ('unknown', k[2], k[1])
+        return None
+
+    def count_of(e, env):
+        if isinstance(e, ast.Name) and e.id in env and env[e.id][0] == 'elem':
+            return (env[e.id][1], env[e.id][2])
+        if isinstance(e, ast.Subscript) and isinstance(e.value, ast.Name) and e.value.id in persel and e.value.id != rows and \
+                isinstance(e.slice, ast.Name) and e.slice.id in env and env[e.slice.id][0] == 'pos':
+            return (e.value.id, env[e.slice.id][2])
+        return None
+
+    def check_sub(sub, env):
+        idx = sub.slice
+        if not (names_loaded(idx) & set(env)):
+            return
+        state['n'] += 1
+        k = rowid_of(idx, env)
+        ctx = '; '.join('%s: %s of %s' % (nm, v[0], v[1]) for nm, v in sorted(env.items()) if nm in names_loaded(idx))
+        con = '%s with %s' % (u(sub), ctx)
+        if k is not None and k[0] == 'rowid':
+            ck.ok(rule, mod, sub, con, 'row-indexed array subscripted with a ROW ID of the selection')
+        elif k is not None and k[0] == 'pos':
+            ck.bad(rule, mod, sub, F, con,
+                   '`%s` is indexed by row id (it is derived from `%s`), but `%s` is a position in `%s`: a position in the '
+                   'row selection is used as a row id, so for a[1:, :] / a[[2, 0], :] the stop of the wrong row '
+                   'clips the slice' % (u(sub.value), lengths, u(idx), k[2]))
+        else:
+            ck.missing(rule, 'index of the row-indexed array in %s not recognised (%s)' % (u(sub), ctx))
+
+    def check_repeat(call, env):
+        state['rep'] += 1
+        a, b = call.args[0], call.args[1]
+        ka, kb = rowid_of(a, env), count_of(b, env)
+        con = u(call)
+        if ka is not None and ka[0] == 'pos':
+            ck.bad(rule + '.repeat', mod, call, F, con, 'a position in the row selection (`%s`) is repeated as if it were a row id' % u(a))
+        elif ka is None or ka[0] != 'rowid' or kb is None:
+            ck.missing(rule + '.repeat', 'operands of %s not recognised as (row id of position k, column count of position k)' % con[:120])
+        elif ka[1] is not kb[1]:
+            ck.bad(rule + '.repeat', mod, call, F, con, 'row ids must be repeated per selected column count of the same position')
+        elif newlen is not None and kb[0] != newlen:
+            ck.missing(rule + '.repeat', '%s repeats by `%s`, which is not the sequence returned as the new lengths (%s)' % (con[:100], kb[0], newlen[:60]))
+        else:
+            ck.ok(rule + '.repeat', mod, call, con, 'row id of selection position k repeated once per selected column of position k')
+
+    def visit(node, env):
+        if isinstance(node, (ast.FunctionDef, ast.AsyncFunctionDef, ast.ClassDef, ast.Lambda)):
+            return
+        if isinstance(node, ast.For):
+            visit(node.iter, env)
+            env2 = dict(env)
+            env2.update(_loop_vars(fi, node.target, node.iter, rows, persel, node))
+            state['loops'].append((node, env2))
+            for s in node.body:
+                visit(s, env2)
+            for s in node.orelse:
+                visit(s, env)
+            return
+        if isinstance(node, (ast.ListComp, ast.SetComp, ast.GeneratorExp, ast.DictComp)):
+            env2 = dict(env)
+            for g in node.generators:
+                visit(g.iter, env2)
+                env2.update(_loop_vars(fi, g.target, g.iter, rows, persel, g))
+                for c in g.ifs:
+                    visit(c, env2)
+            for part in ([node.key, node.value] if isinstance(node, ast.DictComp) else [node.elt]):
+                visit(part, env2)
+            return
+        if isinstance(node, ast.Subscript) and isinstance(node.ctx, ast.Load) and isinstance(node.value, ast.Name) and node.value.id in rowidx and env:
+            check_sub(node, env)
+        if isinstance(node, ast.Call) and call_name(node) == 'itertools.repeat' and len(node.args) == 2 and env:
+            check_repeat(node, env)
+        if isinstance(node, ast.Call) and call_name(node) in ('np.arange', 'range') and env and len(node.args) >= 2:
+            e = _xc(fi, node.args[1])
+            if isinstance(e, ast.Subscript) and isinstance(e.value, ast.Name) and e.value.id in rowidx:
+                state['stops'].add(e.value.id)
+        for ch in ast.iter_child_nodes(node):
+            visit(ch, env)
+
+    for s in fn.body:
+        visit(s, {})
+    ck.floor(rule, state['n'], 1, 'row-indexed subscripts in the expansion loop')
+    if state['rep'] == 0:
+        reps = [c for c in calls_in(fn) if call_name(c) == 'np.repeat' and len(c.args) == 2]
+        okr = [c for c in reps if _xu(fi, c.args[0]) == rows and _xu(fi, c.args[1]) in persel - {rows}]
+        if okr:
+            ck.ok(rule + '.repeat', mod, okr[0], u(okr[0]), 'row ids repeated by the per-position column counts')
+        else:
+            ck.missing(rule + '.repeat', 'construction of the row ids of the selected elements (itertools.repeat(row id, column count)) not found')
+
+    # --- clip of the stops to the row lengths
+    stops = sorted(state['stops'] - {lengths})
+    if len(stops) != 1:
+        ck.missing(rule + '.clip', 'per-row stop array of the column ranges not recognised (%s)' % ', '.join(sorted(state['stops'])))
+        return
+    ST = stops[0]
+    scope = {ST, lengths}
+    why = 'stops must be clipped per row: stops[stops > lengths] = lengths[...]'
+    first_loop = state['loops'][0][0] if state['loops'] else None
+    done = False
+    cl = subscript_stores(fn, ST)
+    for s, t in cl:
+        if not isinstance(s, ast.Assign):
+            continue
+        I = _xc(fi, t.slice, strict=False)
+        val = _xc(fi, s.value, strict=False)
+        vi = _classify(I, ['np.where(%s < %s)' % (lengths, ST), '%s < %s' % (lengths, ST), 'np.where(%s < %s)[0]' % (lengths, ST),
+                           'np.where(%s <= %s)' % (lengths, ST), '%s <= %s' % (lengths, ST)], scope)
+        same = isinstance(val, ast.Subscript) and u(val.value) == lengths and u(val.slice) == u(I)
+        if vi[0] == 'match' and same:
+            dom = first_loop is None or fi.cfg.dominates(s, first_loop)
+            if dom:
+                ck.ok(rule + '.clip', mod, s, u(s), 'stops beyond a row are clipped to that row\'s length')
+            else:
+                ck.missing(rule + '.clip', 'the clip %s does not dominate the expansion loop' % u(s)[:80])
+            done = True
+        elif vi[0] == 'far' or (vi[0] == 'match' and not _pure(val)):
+            ck.missing(rule + '.clip', 'store into the stop array not recognised: %s' % u(s)[:120])
+            done = True
+        else:
+            ck.bad(rule + '.clip', mod, s, F, u(s), why)
+            done = True
+    if not done:
+        mins = [s for s in assigns_to(fn, ST) if isinstance(s, ast.Assign) and
+                any(match(p, s.value) is not None for p in ('np.minimum(%s, __)' % lengths, 'np.minimum(__, %s)' % lengths))]
+        if mins and (first_loop is None or fi.cfg.dominates(mins[-1], first_loop)):
+            ck.ok(rule + '.clip', mod, mins[-1], u(mins[-1]), 'stops beyond a row are clipped to that row\'s length')
+        else:
+            ck.bad(rule + '.clip', mod, fn, F, 'clip', why)
+
+
+# ---------------------------------------------------------------------------
+# D5 / D6
+
+def _starts_forms(Lx):
+    return ['np.append([0], %s.cumsum()[:-1])' % Lx, 'np.append(0, %s.cumsum()[:-1])' % Lx,
+            'np.concatenate(([0], %s.cumsum()[:-1]))' % Lx, 'np.concatenate([[0], %s.cumsum()[:-1]])' % Lx,
+            'np.r_[0, %s.cumsum()[:-1]]' % Lx, '%s.cumsum() - %s' % (Lx, Lx),
+            'np.insert(%s.cumsum()[:-1], 0, 0)' % Lx, 'np.insert(%s.cumsum(), 0, 0)[:-1]' % Lx]
+
+
+def _strip_array(e):
+    """np.array(x) / np.asarray(x) / x.copy()  ->  x"""
+    if isinstance(e, ast.Call) and call_name(e) in ('np.array', 'np.asarray') and len(e.args) == 1 and not e.keywords:
+        return e.args[0]
+    if isinstance(e, ast.Call) and isinstance(e.func, ast.Attribute) and e.func.attr == 'copy' and not e.args and not e.keywords:
+        return e.func.value
+    return None
 
 
 def d5_where(ck, mod):
     rule = 'C05.D5.flat-to-2d'
-    fn = mod.func('_convert_from_1d')
+    F = '_convert_from_1d'
+    fn = mod.func(F)
     ck.analysed(mod, fn)
-    fd = [s for s in walk_local(fn) if isinstance(s, ast.Assign) and u(s.targets[0]) == 'first_dimension']
-    ok = len(fd) == 1 and u(fd[0].value) == C('[np.where(starts <= ii)[0][-1] for ii in iis_flat]')
-    ck.check(ok, rule, mod, fd[0] if fd else fn, '_convert_from_1d', u(fd[0]) if fd else 'first_dimension',
-             'row of a flat index = LAST row whose start is <= the index', 'row must be np.where(starts <= ii)[0][-1] (< loses the first element of each row)')
-    sd = [s for s in walk_local(fn) if isinstance(s, ast.Assign) and u(s.targets[0]) == 'second_dimension']
-    ok = len(sd) == 1 and u(sd[0].value) == '[iis_flat[num] - starts[first_dimension[num]] for num in range(len(iis_flat))]'
-    ck.check(ok, rule, mod, sd[0] if sd else fn, '_convert_from_1d', u(sd[0]) if sd else 'second_dimension', 'column = flat index - start of its row', 'column must be iis_flat[k] - starts[row[k]]')
-    st = [s for s in walk_local(fn) if isinstance(s, ast.Assign) and u(s.targets[0]) == 'starts']
-    ok = len(st) == 1 and u(st[0].value) == C('np.append([0], np.cumsum(lengths)[:-1])')
-    ck.check(ok, rule + '.starts', mod, st[0] if st else fn, '_convert_from_1d', u(st[0]) if st else 'starts', 'starts = exclusive prefix sums of lengths', 'starts must be np.append([0], np.cumsum(lengths)[:-1])')
-    for q in ('_convert_from_2d', CLS + '.starts'):
+    fi = finfo(mod, fn)
+    ps = params(fn)
+    if len(ps) < 3:
+        ck.missing(rule, '_convert_from_1d(flat index, lengths, starts): parameters not recognised')
+        return
+    P0, L, S = ps[:3]
+    scope = _local_names(fn)
+    rets = [r for r in returns_of(fn) if r.value is not None]
+    n = 0
+    for r in rets:
+        if not (isinstance(r.value, ast.Tuple) and len(r.value.elts) == 2):
+            ck.missing(rule, 'return value of _convert_from_1d is not a (rows, columns) pair: %s' % u(r.value)[:100])
+            continue
+        er, ec = (_strip_array(x) for x in r.value.elts)
+        if er is None or ec is None:
+            er, ec = r.value.elts
+        n += 1
+        rname = er.id if isinstance(er, ast.Name) else None
+        # the flat index set: <first parameter>[0], possibly under a name
+        def flat_ok(e):
+            if isinstance(e, ast.Name):
+                e = fi.resolve(e)
+            return u(e) == '%s[0]' % P0
+        xr = _xc(fi, er)
+        v = _classify(xr, ['[np.where(%s <= _I)[0][-1] for _I in _F]' % S, '[np.where(%s <= _I)[0].max() for _I in _F]' % S,
+                           'np.searchsorted(%s, _F, side="right") - 1' % S, '[np.searchsorted(%s, _I, side="right") - 1 for _I in _F]' % S], scope)
+        if v[0] == 'match':
+            Fx = v[1]['_F']
+            if not (flat_ok(Fx) or (isinstance(Fx, ast.Name) and any(u(a.value) == '%s[0]' % P0 for a in assigns_to(fn, Fx.id) if isinstance(a, ast.Assign)))):
+                v = ('far', 1, None)
+        ck.decide(v, rule, mod, r, F, 'rows: %s' % u(xr)[:180],
+                  'row of a flat index = LAST row whose start is <= the index', 'row must be np.where(starts <= ii)[0][-1] (< loses the first element of each row)')
+        xc_ = _xc(fi, ec, stop=(rname,) if rname else ())
+        Rn = rname or '_R'
+        v = _classify(xc_, ['[_F[_K] - %s[%s[_K]] for _K in range(len(_F))]' % (S, Rn), '[_X - %s[_Y] for _X, _Y in zip(_F, %s)]' % (S, Rn),
+                            '_F - %s[%s]' % (S, Rn), '[_F[_K] - %s[_Y] for _K, _Y in enumerate(%s)]' % (S, Rn)], scope)
+        ck.decide(v, rule, mod, r, F, 'columns: %s' % u(xc_)[:180], 'column = flat index - start of its row', 'column must be iis_flat[k] - starts[row[k]]')
+    ck.floor(rule, n, 1, 'return of the (rows, columns) pair')
+    # starts: exclusive prefix sums of the lengths, wherever they are derived
+    for q in (F, '_convert_from_2d'):
         f = mod.func(q)
-        txt = [u(x) for x in ast.walk(f) if isinstance(x, ast.Call) and call_name(x) == 'np.append']
-        want = C('np.append([0], np.cumsum(%s)[:-1])' % ('self.lengths' if q.endswith('.starts') else 'lengths'))
-        ok = want in txt
-        if q.endswith('.starts'):
-            rr = returns_of(f)
-            ok = len(rr) == 1 and u(rr[0].value) == want and len([x for x in f.body if not (isinstance(x, ast.Expr) and isinstance(x.value, ast.Constant))]) == 1
-        ck.check(ok, rule + '.starts', mod, f, q, want, 'same definition of starts (recomputed from the current lengths on every access)',
-                 '%s must compute starts as %s from the CURRENT lengths on every access (a cached copy goes stale when append changes the lengths)' % (q, want))
+        fq = finfo(mod, f)
+        qs = params(f)
+        if len(qs) < 3:
+            ck.missing(rule + '.starts', 'parameters of %s' % q)
+            continue
+        Lq, Sq = qs[1], qs[2]
+        st = [s for s in assigns_to(f, Sq) if isinstance(s, ast.Assign)]
+        for s in st:
+            v = _classify(_expand(fq, s.value), _starts_forms(Lq), {Lq})
+            ck.decide(v, rule + '.starts', mod, s, q, u(s)[:200], 'starts = exclusive prefix sums of lengths',
+                      'starts must be np.append([0], np.cumsum(lengths)[:-1])')
+        if not st:
+            ck.missing(rule + '.starts', 'derivation of starts from lengths in %s' % q)
+    q = CLS + '.starts'
+    f = mod.func(q)
+    fq = finfo(mod, f)
+    selfn = params(f)[0]
+    rr = [r for r in returns_of(f) if r.value is not None]
+    want = C('np.append([0], np.cumsum(%s.lengths)[:-1])' % selfn)
+    for r in rr:
+        v = _classify(_expand(fq, r.value), _starts_forms('%s.lengths' % selfn), {selfn})
+        ck.decide(v, rule + '.starts', mod, r, q, _xu(fq, r.value)[:200], 'same definition of starts (recomputed from the current lengths on every access)',
+                  '%s must compute starts as %s from the CURRENT lengths on every access (a cached copy goes stale when append changes the lengths)' % (q, want))
+    stores = [s for s in walk_local(f) if isinstance(s, (ast.Assign, ast.AugAssign)) and
+              any(not isinstance(t, ast.Name) for t in (s.targets if isinstance(s, ast.Assign) else [s.target]))]
+    ck.check(len(rr) == 1 and not stores, rule + '.starts', mod, f, q, 'single return, no attribute/element store in %s' % q,
+             'starts is recomputed on every access, nothing is cached',
+             '%s must compute starts as %s from the CURRENT lengths on every access (a cached copy goes stale when append changes the lengths)' % (q, want))
+    # where(): positions of the flat mask converted with the mask's own starts
     fw = mod.func('where')
-    ok = any(u(x) == '_convert_from_1d(iis_flat, starts=mask.starts)' for x in ast.walk(fw) if isinstance(x, ast.Call)) and \
-        any(u(x) == 'np.where(mask._data)' for x in ast.walk(fw) if isinstance(x, ast.Call))
-    ck.check(ok, rule + '.where', mod, fw, 'where', 'np.where(mask._data) -> _convert_from_1d(..., starts=mask.starts)', 'mask positions converted with the mask\'s own starts', 'where must convert np.where(mask._data) with mask.starts')
+    ck.analysed(mod, fw)
+    fiw = finfo(mod, fw)
+    M = params(fw)[0]
+    cs = [c for c in calls_in(fw) if call_name(c) == F]
+    if not cs:
+        ck.bad(rule + '.where', mod, fw, 'where', 'np.where(mask._data) -> _convert_from_1d(..., starts=mask.starts)', 'where must convert np.where(mask._data) with mask.starts')
+    for c in cs:
+        b = _bind_call(mod, c) or {}
+        a0 = b.get(P0)
+        ok_start = (S in b and _xu(fiw, b[S]) == '%s.starts' % M) or (S not in b and L in b and _xu(fiw, b[L]) == '%s.lengths' % M)
+        if a0 is None:
+            ck.missing(rule + '.where', 'arguments of %s' % u(c)[:100])
+            continue
+        v = _classify(_expand(fiw, a0), ['np.where(%s._data)' % M, '%s._data.nonzero()' % M, 'np.nonzero(%s._data)' % M], {M})
+        if v[0] == 'match' and not ok_start:
+            v = ('near', 1, '_convert_from_1d(np.where(mask._data), starts=mask.starts)')
+        ck.decide(v, rule + '.where', mod, c, 'where', 'np.where(mask._data) -> _convert_from_1d(..., starts=mask.starts)',
+                  'mask positions converted with the mask\'s own starts', 'where must convert np.where(mask._data) with mask.starts')
     # simple observers
-    obs = {'__len__': 'len(self._array)', 'flatten': 'self._data.flatten()', 'dtype': 'self._data.dtype'}
-    for name, want in obs.items():
+    obs = {'__len__': ['len(%s._array)', 'len(%s.lengths)', '%s.lengths.size', '%s.lengths.shape[0]'],
+           'flatten': ['%s._data.flatten()', '%s._data.ravel().copy()', '%s._data.reshape(-1).copy()'],
+           'dtype': ['%s._data.dtype']}
+    for name, forms in obs.items():
         f = mod.func(CLS + '.' + name)
-        r = returns_of(f)
-        ck.check(len(r) == 1 and u(r[0].value) == want, 'C05.D6.observers', mod, r[0] if r else f, CLS + '.' + name, u(r[0]) if r else name,
-                 '%s = %s' % (name, want), '%s must return %s' % (name, want))
-    gi = mod.func(CLS + '.__getitem__')
-    first = gi.body[0]
-    ok = isinstance(first, ast.If) and u(first.test) == 'isinstance(iis, numbers.Integral)' and u(first.body[0]) == 'return self._array[iis]'
-    ck.check(ok, 'C05.D6.observers', mod, first, CLS + '.__getitem__', u(first.test), 'integer index returns the row view', 'a[i] must return self._array[i]')
+        fo = finfo(mod, f)
+        sn = params(f)[0]
+        forms = [x % sn for x in forms]
+        r = [x for x in returns_of(f) if x.value is not None]
+        if len(r) != 1:
+            ck.missing('C05.D6.observers', 'single return of %s.%s' % (CLS, name))
+            continue
+        v = _classify(_expand(fo, r[0].value), forms, {sn})
+        ck.decide(v, 'C05.D6.observers', mod, r[0], CLS + '.' + name, u(r[0]), '%s = %s' % (name, forms[0]), '%s must return %s' % (name, forms[0]))
 
+
+# ---------------------------------------------------------------------------
+# D7
 
 def d7_constructor_and_lists(ck, mod):
     """Rectangular fast path of the constructor and the row x column product
     used for (rows, column-list) indices."""
     rule = 'C05.D7.row-major'
-    fn = mod.func(CLS + '.__init__')
+    q = CLS + '.__init__'
+    fn = mod.func(q)
     ck.analysed(mod, fn)
-    rs = [s for s in walk_local(fn) if isinstance(s, ast.Assign) and u(s.targets[0]) == 'self._array' and
-          isinstance(s.value, ast.Call) and isinstance(s.value.func, ast.Attribute) and s.value.func.attr == 'reshape']
-    for s in rs:
-        a = [u(x) for x in s.value.args]
-        if len(a) == 1 and isinstance(s.value.args[0], ast.Tuple):
-            a = [u(x) for x in s.value.args[0].elts]
-        ok = u(s.value.func.value) == 'self._data' and a in (['-1', 'lengths[0]'], ['len(lengths)', 'lengths[0]'], ['1', 'self.lengths[0]'],
-                                                               ['-1', 'self.lengths[0]'], ['len(self.lengths)', 'self.lengths[0]'])
-        ck.check(ok, rule + '.reshape', mod, s, CLS + '.__init__', u(s),
-                 'equal-length fast path: rows x row-length view of the flat data',
-                 'the rectangular row view must be self._data.reshape(<number of rows or -1>, <row length>): with the arguments '
-                 'swapped the view has row-length rows of n-rows elements, so a[i], iteration and len() disagree with the rows')
-    ck.floor(rule + '.reshape', len(rs), 2, 'reshape views in the constructor')
-    g = [n for n in walk_local(fn) if isinstance(n, ast.If) and u(n.test) in CS('np.all(lengths == lengths[0])')]
-    ck.check(len(g) == 1, rule + '.reshape', mod, g[0] if g else fn, CLS + '.__init__', u(g[0].test) if g else 'equal-length test',
-             'the fast path is taken only when all lengths are equal', 'the reshape fast path must be guarded by np.all(lengths == lengths[0])')
-    fl = mod.func('_get_iis_from_list')
+    fi = finfo(mod, fn)
+    ps = params(fn)
+    selfn = ps[0]
+    LP = 'lengths' if 'lengths' in ps else (ps[2] if len(ps) > 2 else None)
+    DATA, ARR, SL = '%s._data' % selfn, '%s._array' % selfn, '%s.lengths' % selfn
+    scope = {selfn, LP}
+    why = ('the rectangular row view must be self._data.reshape(<number of rows or -1>, <row length>): with the arguments '
+           'swapped the view has row-length rows of n-rows elements, so a[i], iteration and len() disagree with the rows')
+    n = 0
+    for s in walk_local(fn):
+        if not (isinstance(s, ast.Assign) and any(u(t) == ARR for t in s.targets)):
+            continue
+        v = _xc(fi, s.value)
+        if not (isinstance(v, ast.Call) and isinstance(v.func, ast.Attribute) and v.func.attr == 'reshape' and u(v.func.value) == DATA):
+            continue
+        n += 1
+        args = list(v.args)
+        if len(args) == 1 and isinstance(args[0], (ast.Tuple, ast.List)):
+            args = list(args[0].elts)
+        shape = ast.Tuple(elts=args, ctx=ast.Load())
+        forms = []
+        for lx in (LP, SL):
+            forms += ['(-1, %s[0])' % lx] + ['(%s, %s[0])' % (nr, lx) for nr in
+                                            ('len(%s)' % LP, 'len(%s)' % SL, '%s.shape[0]' % LP, '%s.shape[0]' % SL, '%s.size' % LP, '%s.size' % SL)]
+        # a single row: allowed when the lengths just assigned hold ONE entry
+        blk = mod.parent.get(s)
+        sib = []
+        for fld in ('body', 'orelse', 'finalbody'):
+            b = getattr(blk, fld, None)
+            if isinstance(b, list) and any(x is s for x in b):
+                sib = b
+        one_row = any(isinstance(x, ast.Assign) and any(u(t) == SL for t in x.targets) and
+                      (match('np.array([__], dtype=__)', x.value) is not None or match('np.array([__])', x.value) is not None) for x in sib)
+        if one_row:
+            forms += ['(1, %s[0])' % SL, '(1, -1)', '(1, len(%s))' % DATA]
+        vv = _classify(shape, forms, scope)
+        ck.decide(vv, rule + '.reshape', mod, s, q, u(s)[:200] if u(canon(s.value)) == u(v) else '%s = %s' % (ARR, u(v)[:200]),
+                  'equal-length fast path: rows x row-length view of the flat data', why)
+        # the fast path over caller-supplied lengths is taken only when all lengths are equal
+        if any(isinstance(x, ast.Name) and x.id == LP for x in ast.walk(shape)):
+            gforms = ['(%s == %s[0]).all()' % (LP, LP), 'not (%s != %s[0]).any()' % (LP, LP), 'not (%s - %s[0]).any()' % (LP, LP),
+                      'len(set(%s)) == 1' % LP, '(%s[0] == %s).all()' % (LP, LP), 'len(np.unique(%s)) == 1' % LP]
+            verdicts = []
+            for a, node in _atoms(_path_conditions(mod, s, fn)):
+                e = _atom_expr(a)
+                if not _uses_beyond_none(e, LP):
+                    continue
+                verdicts.append((_classify(_expand(fi, e), gforms, {LP}), node, e))
+            hit = [x for x in verdicts if x[0][0] == 'match']
+            near = [x for x in verdicts if x[0][0] == 'near']
+            gwhy = 'the reshape fast path must be guarded by np.all(lengths == lengths[0])'
+            if hit:
+                ck.ok(rule + '.reshape', mod, hit[0][1], u(hit[0][2]), 'the fast path is taken only when all lengths are equal')
+            elif near:
+                ck.bad(rule + '.reshape', mod, near[0][1], q, u(near[0][2]), gwhy)
+            elif verdicts:
+                ck.missing(rule + '.reshape', 'guard of the reshape fast path not recognised: %s' % u(verdicts[0][2])[:120])
+            else:
+                ck.bad(rule + '.reshape', mod, s, q, 'equal-length test', gwhy)
+    ck.floor(rule + '.reshape', n, 2, 'reshape views in the constructor')
+
+    F = '_get_iis_from_list'
+    fl = mod.func(F)
     ck.analysed(mod, fl)
+    fil = finfo(mod, fl)
+    if len(params(fl)) < 2:
+        ck.missing(rule + '.product', 'parameters of _get_iis_from_list')
+        return
     a, b = params(fl)[:2]
-    pr = [c for c in calls_in(fl) if call_name(c) == 'itertools.product']
-    ok = len(pr) == 1 and [u(x) for x in pr[0].args] == [a, b]
-    st = [s for s in walk_local(fl) if isinstance(s, ast.Assign) and isinstance(s.targets[0], ast.Name) and 'itertools.product' in u(s.value)]
-    ok = ok and len(st) == 1 and u(st[0].value) == 'np.array(list(itertools.product(%s, %s))).T' % (a, b)
-    ck.check(ok, rule + '.product', mod, pr[0] if pr else fl, '_get_iis_from_list', u(st[0]) if st else 'row x column pairs',
-             '(row, column) pairs enumerated row-major: all columns of the first row, then the next row',
-             'the index pairs must be itertools.product(rows, columns) (row-major) transposed into (rows, cols): the flat result is '
-             'chunked row by row by new_lengths, so a column-major enumeration (e.g. np.meshgrid default) scatters values into '
-             'transposed slots')
-    nl = [s for s in walk_local(fl) if isinstance(s, ast.Assign) and u(s.targets[0]) == 'new_lengths']
-    ok = len(nl) == 1 and u(nl[0].value) == 'list(itertools.repeat(len(%s), len(%s)))' % (b, a)
-    ck.check(ok, rule + '.product', mod, nl[0] if nl else fl, '_get_iis_from_list', u(nl[0]) if nl else 'new_lengths',
-             'every selected row contributes len(columns) elements', 'new_lengths must be len(columns) repeated len(rows) times')
+    n = 0
+    for r in returns_of(fl):
+        if not (isinstance(r.value, ast.Tuple) and len(r.value.elts) == 2):
+            ck.missing(rule + '.product', 'return value of _get_iis_from_list is not (index pairs, new lengths): %s' % u(r.value)[:100])
+            continue
+        n += 1
+        pairs = _xc(fil, r.value.elts[0])
+        inner = 'list(itertools.product(%s, %s))' % (a, b)
+        v = _classify(pairs, ['np.array(%s).T' % inner, 'np.array(%s).transpose()' % inner, 'np.transpose(np.array(%s))' % inner,
+                              'np.asarray(%s).T' % inner, 'np.transpose(%s)' % inner, 'np.array(list(zip(*itertools.product(%s, %s))))' % (a, b),
+                              'np.array([np.meshgrid(%s, %s, indexing="ij")[0].ravel(), np.meshgrid(%s, %s, indexing="ij")[1].ravel()])' % (a, b, a, b),
+                              'np.array([np.repeat(%s, len(%s)), np.tile(%s, len(%s))])' % (a, b, b, a)], {a, b})
+        ck.decide(v, rule + '.product', mod, r, F, 'pairs: %s' % u(pairs)[:200],
+                  '(row, column) pairs enumerated row-major: all columns of the first row, then the next row',
+                  'the index pairs must be itertools.product(rows, columns) (row-major) transposed into (rows, cols): the flat result is '
+                  'chunked row by row by new_lengths, so a column-major enumeration (e.g. np.meshgrid default) scatters values into '
+                  'transposed slots')
+        nl = _xc(fil, r.value.elts[1])
+        v = _classify(nl, ['list(itertools.repeat(len(%s), len(%s)))' % (b, a), '[len(%s)] * len(%s)' % (b, a), 'len(%s) * [len(%s)]' % (a, b),
+                           '[len(%s) for __ in %s]' % (b, a), 'np.full(len(%s), len(%s))' % (a, b), 'np.repeat(len(%s), len(%s))' % (b, a),
+                           '[len(%s) for __ in range(len(%s))]' % (b, a)], {a, b})
+        ck.decide(v, rule + '.product', mod, r, F, 'new lengths: %s' % u(nl)[:200],
+                  'every selected row contributes len(columns) elements', 'new_lengths must be len(columns) repeated len(rows) times')
+    ck.floor(rule + '.product', n, 1, 'return of (index pairs, new lengths)')
 
 
 def check(ck):
@@ -375,6 +1476,8 @@ def check(ck):
                                                         (RA, 'where'), (RA, '_get_iis_from_list'), (RA, '_slice_to_list'),
                                                         (RA, '_get_iis_from_slices')], exempt_self_methods=False)
     d1_bounds(ck, mod)
+    d1_call_sites(ck, mod)
+    d1_negatives(ck, mod)
     d2_slices(ck, mod)
     d3_dispatch(ck, mod)
     d4_index_space(ck, mod)
